@@ -106,6 +106,19 @@ Theorem C05_cache_reset_makes_current : forall (sha256 : bytes -> bytes) s ops,
 Proof. exact reset_makes_current. Qed.
 Print Assumptions C05_cache_reset_makes_current.
 
+(* a PARSED transaction (the given bytes cached as _raw, segwit flag set or not, id / raw_sans_segwit
+   possibly read before): after the first add_inputs / add_outputs / _reset, and as long as no field is
+   edited in place without a reset afterwards, raw, raw_sans_segwit and id are those of the fields the
+   object holds now -- the witness-stripped bytes cached by an earlier id read do not survive the change. *)
+Theorem C05_cache_parsed_reads_current : forall (sha256 : bytes -> bytes) t raw seg before op after,
+  (op = OReset \/ exists t', op = OAdd t') ->
+  forallb (fun op => negb (is_edit op)) after = true ->
+  let s := fst (crun sha256 (c_parsed t raw seg) (before ++ op :: after)) in
+  fst (read_raw s) = serialize (c_cur s) /\ fst (read_sans s) = serialize (c_cur s) /\
+  fst (read_id sha256 s) = rev (sha256 (sha256 (serialize (c_cur s)))).
+Proof. exact parsed_reads_current_after_change. Qed.
+Print Assumptions C05_cache_parsed_reads_current.
+
 (* non-vacuity: the hypotheses are inhabited, and concrete instances *)
 Example C05_ex_wf : wf_tx sample_tx /\ wf_wits sample_tx sample_wits.
 Proof. exact sample_wf. Qed.
@@ -141,3 +154,11 @@ Proof. exact partial_add_without_reset_refuted. Qed.
    the reason wf_tx asks for an input *)
 Example C05_ex_no_input : deserialize (serialize no_input_tx) <> ROk (lift no_input_tx).
 Proof. exact no_input_ambiguous. Qed.
+(* parsed segwit object, id read (fills _raw_sans_segwit), fields changed: without a reset raw_sans_segwit is
+   the old stripped serialisation; with add_outputs' reset it and the id are current *)
+Example C05_ex_parsed_segwit_needs_sans_reset :
+  let s' := fst (crun (fun b => b) (c_parsed sample_tx (serialize sample_tx) true) [OReadId; OEdit sample_tx2]) in
+  fst (read_sans s') <> serialize (c_cur s') /\
+  let s'' := fst (crun (fun b => b) (c_parsed sample_tx (serialize sample_tx) true) [OReadId; OAdd sample_tx2]) in
+  fst (read_sans s'') = serialize (c_cur s'') /\ fst (read_id (fun b => b) s'') = rev (serialize (c_cur s'')).
+Proof. exact parsed_segwit_stale_without_reset_refuted. Qed.
